@@ -34,8 +34,33 @@ class AuthMonitor(Monitor):
         self.n_prekey = 0
         self.prev_temp = {}
         self.accepted_wids = {}      # conn name -> set of wire ids accepted (for replay classification)
+        self.first_key = {}
+        self.key_flagged = set()
+
+    def _key_is_kept(self, conn):
+        """'... changing the key': a connection that holds a session key keeps exactly that key for the rest of its life."""
+        kid = id(conn)
+        k = conn.session_key_bytes
+        k0 = self.first_key.get(kid)
+        if k0 is None:
+            if k:
+                self.first_key[kid] = (bytes(k), conn)       # (the object is kept so that its id is not reused)
+        elif (not k or bytes(k) != k0[0]) and kid not in self.key_flagged:
+            self.key_flagged.add(kid)
+            self.w.violation("connection_did_not_keep_its_session_key",
+                             {"side": "server" if conn.isServer else "client", "now": "none" if not k else "another key",
+                              "status": conn.status.name(), "t": round(self.w.k.now, 4)},
+                             key="%s:%s" % ("server" if conn.isServer else "client", "none" if not k else "changed"))
+
+    def on_tick(self):
+        for conn in list(self.w.client_conns) + list(self.w.all_server_conns):
+            self._key_is_kept(conn)
+
+    def at_end(self):
+        self.on_tick()
 
     def pre_recv(self, conn, hdr, datagram):
+        self._key_is_kept(conn)
         origin = getattr(datagram, "origin", "net")
         meta = getattr(datagram, "meta", None) or {}
         if origin == "net":
@@ -54,6 +79,7 @@ class AuthMonitor(Monitor):
         return (snapshot(conn), conn.stats.dropped, bool(conn.session_key_bytes), origin, meta)
 
     def post_recv(self, conn, hdr, datagram, pre, result):
+        self._key_is_kept(conn)
         if pre is None:
             return
         w = self.w
@@ -226,10 +252,38 @@ class C01(UdpCheck):
             td = round(1.0 + rng.random() * (dur - 2.5), 3)
             plan.append({"op": "disconnect", "c": c, "t": td})
             pts.append(td + 0.2)
+        rng2 = random.Random("c01-extra|%s" % (rng.getstate()[1][:3],))     # (does not consume from the main stream)
+        forced = {}
+        if rng2.random() < 0.3:
+            # the application did not configure the server's public key on client 0 (the UdpClient() default)
+            for op in plan:
+                if op["op"] == "connect" and op["c"] == 0:
+                    op["pinned"] = False
+        r2 = rng2.random()
+        if r2 < 0.2:
+            # the challenge response (and everything else client 0 sends) is lost for longer than the message timeout: the
+            # client holds a key, the server still waits; forged datagrams arrive after the client's send timed out
+            cfg.setdefault("phases", []).append({"t0": t_conn + cfg["latency"] * 0.5, "t1": t_conn + 1.6, "src": "c0", "dst": "S", "cut": True})
+            pts.append(t_conn + 1.45)
+            forced[round(t_conn + 1.45, 4)] = ("client", 0)
+        elif r2 < 0.45:
+            # an outage: the server hears nothing from client 0 for a while (shorter than the connection timeout); forged
+            # datagrams in the client's name arrive towards the end of the silence
+            T = cfg["server"].get("conn_timeout") or 5.0
+            d = min(T - 0.7, 4.3)
+            if d > 0.8 and dur > t_conn + 1.0 + d + 1.0:
+                t_out = round(t_conn + 1.0 + rng2.random() * max(0.0, dur - t_conn - d - 2.0), 3)
+                cfg.setdefault("phases", []).append({"t0": t_out, "t1": t_out + d, "src": "c0", "dst": "S", "cut": True})
+                pts.append(t_out + d - 0.25)
+                forced[round(t_out + d - 0.25, 4)] = ("server", 0)
         for k, t in enumerate(sorted(pts)):
             c = rng.randrange(n)
-            plan.append({"op": "grid", "t": round(t, 4), "c": c, "target": rng.choice(["server", "client", "both"]),
-                         "n": k, "sub": rng.choice(["all", "all", "forge", "mutate"])})
+            op = {"op": "grid", "t": round(t, 4), "c": c, "target": rng.choice(["server", "client", "both"]),
+                  "n": k, "sub": rng.choice(["all", "all", "forge", "mutate"])}
+            if round(t, 4) in forced:
+                op["target"], op["c"] = forced[round(t, 4)]
+                op["sub"] = "all"
+            plan.append(op)
         return case
 
     def monitors(self, case):
